@@ -348,8 +348,16 @@ class SDateTime:
         changed = set(kw) - {"tzinfo", "fold"}
         if not (changed & {"year", "month", "day"}):
             res._ord_term = self._ord_term
-        if not (changed & {"hour", "minute", "second", "microsecond"}):
+        tch = changed & {"hour", "minute", "second", "microsecond"}
+        if not tch:
             res._tod_term = self._tod_term
+        elif self._tod_term is not None and len(tch) < 4:
+            # keep the aggregate: tod' = tod + sum (new - old) * unit   (never recompose from the decomposition)
+            unit = {"hour": 3600000000, "minute": 60000000, "second": 1000000, "microsecond": 1}
+            t = self._tod_term
+            for f in tch:
+                t = t + (_zi(kw[f]) - _zi(getattr(self, f))) * unit[f]
+            res._tod_term = z3.simplify(t)
         return res
 
     def weekday(self):
